@@ -50,6 +50,9 @@ ASSUMPTIONS = [
     "1e-5 of the sphere surface, because the library switches formula inside an absolute 1e-6 band",
     "all schedules of one configuration must agree to 1e-9 relative",
     "the sphere shares its centre AND radius with one end of the frustum, as the statement requires",
+    "a solid is the solid it was constructed as: in 30% of the runs the caller overwrites the coordinate arrays it "
+    "passed to the constructors right after construction, and one frustum object is evaluated again after it took "
+    "part in a sphere-frustum evaluation (value semantics, as in the pinned code)",
 ]
 
 
@@ -118,7 +121,7 @@ def gen_config(rng: Prng) -> dict:
         d = 0.0
     caps = [rng.choice([0.0, 1.0, 2.0, 0.5, rng.uniform(0, 2)]) for _ in range(3)]  # fractions of r1
     return {"r1": r1, "r2": r2, "h": h, "rb": rb, "d": d, "caps": caps, "taper": taper, "hk": hk, "dk": dk,
-            "axis": gen_axis(rng), "dir2": gen_axis(rng),
+            "axis": gen_axis(rng), "dir2": gen_axis(rng), "scribble": rng.chance(0.3),
             "offset": rng.choice([[0.0, 0.0, 0.0], [0.0, 0.0, 0.0], [8.0, -16.0, 32.0]]) if rng.chance(0.5)
             else [round(rng.uniform(-500, 500), 3) for _ in range(3)]}
 
@@ -179,22 +182,45 @@ def evaluate(cfg: dict) -> dict:
     d2 = np.array(cfg["dir2"], dtype=np.float64)
     cb = c1 + cfg["d"] * d2 / np.linalg.norm(d2)
     r1, r2, rb = cfg["r1"], cfg["r2"], cfg["rb"]
+    scribble = bool(cfg.get("scribble"))
+
+    def S(c, r):
+        a = np.array(c, dtype=np.float64)  # the caller's own buffer
+        o = VolSphere(a, r)
+        if scribble:  # the caller reuses its buffer after construction: the solid must not move with it
+            a *= -3.0
+            a += 11.0
+        return o
+
+    def F(ca, ra, cb_, rb_):
+        a, b = np.array(ca, dtype=np.float64), np.array(cb_, dtype=np.float64)
+        o = VolFrustumCone(a, ra, b, rb_)
+        if scribble:
+            a += 5.0
+            b *= 0.5
+        return o
+
     out = {}
-    out["sphere"] = VolSphere(c1, r1).get_volume()
+    out["sphere"] = S(c1, r1).get_volume()
     for i, f in enumerate(cfg["caps"]):
-        out[f"cap{i}"] = VolSphere(c1, r1).get_volume_spherical_cap(f * r1)
-    out["frustum"] = VolFrustumCone(c1, r1, c2, r2).get_volume()
-    out["ss_intersect"] = VolSphere(c1, r1).intersect(VolSphere(cb, rb)).get_volume()
-    out["ss_intersect_rev"] = VolSphere(cb, rb).intersect(VolSphere(c1, r1)).get_volume()
-    out["ss_union"] = VolSphere(c1, r1).union(VolSphere(cb, rb)).get_volume()
-    out["ss_union_rev"] = VolSphere(cb, rb).union(VolSphere(c1, r1)).get_volume()
-    out["sf_near_intersect"] = VolSphere(c1, r1).intersect(VolFrustumCone(c1, r1, c2, r2)).get_volume()
-    out["sf_near_union"] = VolSphere(c1, r1).union(VolFrustumCone(c1, r1, c2, r2)).get_volume()
-    out["sf_near_union_rev"] = VolFrustumCone(c1, r1, c2, r2).union(VolSphere(c1, r1)).get_volume()
-    out["sf_far_intersect"] = VolSphere(c2, r2).intersect(VolFrustumCone(c1, r1, c2, r2)).get_volume()
-    out["sf_far_union"] = VolSphere(c2, r2).union(VolFrustumCone(c1, r1, c2, r2)).get_volume()
+        out[f"cap{i}"] = S(c1, r1).get_volume_spherical_cap(f * r1)
+    out["frustum"] = F(c1, r1, c2, r2).get_volume()
+    out["ss_intersect"] = S(c1, r1).intersect(S(cb, rb)).get_volume()
+    out["ss_intersect_rev"] = S(cb, rb).intersect(S(c1, r1)).get_volume()
+    out["ss_union"] = S(c1, r1).union(S(cb, rb)).get_volume()
+    out["ss_union_rev"] = S(cb, rb).union(S(c1, r1)).get_volume()
+    out["sf_near_intersect"] = S(c1, r1).intersect(F(c1, r1, c2, r2)).get_volume()
+    out["sf_near_union"] = S(c1, r1).union(F(c1, r1, c2, r2)).get_volume()
+    out["sf_near_union_rev"] = F(c1, r1, c2, r2).union(S(c1, r1)).get_volume()
+    out["sf_far_intersect"] = S(c2, r2).intersect(F(c1, r1, c2, r2)).get_volume()
+    out["sf_far_union"] = S(c2, r2).union(F(c1, r1, c2, r2)).get_volume()
     # the same frustum described from its other end
-    out["sf_near_intersect_flip"] = VolSphere(c1, r1).intersect(VolFrustumCone(c2, r2, c1, r1)).get_volume()
+    out["sf_near_intersect_flip"] = S(c1, r1).intersect(F(c2, r2, c1, r1)).get_volume()
+    # one frustum object used again after a sphere-frustum evaluation: it must still be the same solid
+    fr = F(c1, r1, c2, r2)
+    S(c1, r1).intersect(fr).get_volume()
+    out["frustum_reused"] = fr.get_volume()
+    out["sf_near_union_reused"] = S(c1, r1).union(fr).get_volume()
     return {k: float(v) for k, v in out.items()}, axis
 
 
@@ -268,7 +294,7 @@ def execute(program: dict) -> dict:
                 if draws > 8:
                     world.probe("c13.redraw_loop_taken")
                 for key, val in sorted(got.items()):
-                    rkey = key.replace("_rev", "").replace("_flip", "")
+                    rkey = key.replace("_rev", "").replace("_flip", "").replace("_reused", "")
                     exp = ref[rkey]
                     tol = tol_for(cfg, key)
                     if not (abs(val - exp) <= tol * max(abs(exp), 1e-6 * scale) + 1e-12):
@@ -286,7 +312,7 @@ def execute(program: dict) -> dict:
                     for key in first:
                         a, b = first[key], got[key]
                         if abs(a - b) > 1e-9 * max(abs(a), abs(b), 1e-6 * scale):
-                            violation = {"tag": "schedule_dependence", "op": key.replace("_rev", "").replace("_flip", ""),
+                            violation = {"tag": "schedule_dependence", "op": key.replace("_rev", "").replace("_flip", "").replace("_reused", ""),
                                          "detail": f"{key}: {a!r} under `seed` but {b!r} under `{kind}`"}
                             break
                     if violation:
@@ -317,6 +343,8 @@ def shrink_candidates(program: dict):
     for key, simple in (("r1", 1.0), ("rb", 1.0), ("d", 0.0), ("d", 1.0), ("h", 1.0), ("h", 2.0), ("r2", 0.5), ("r2", 1.0)):
         if cfg[key] != simple:
             yield shrink.with_value(program, ["cfg", key], simple)
+    if cfg.get("scribble"):
+        yield shrink.with_value(program, ["cfg", "scribble"], False)
     if cfg["caps"] != [1.0, 1.0, 1.0]:
         yield shrink.with_value(program, ["cfg", "caps"], [1.0, 1.0, 1.0])
     for key in ("r1", "r2", "h", "rb", "d"):
